@@ -279,6 +279,7 @@ func runC02(c *Ctx) {
 	undeclaredSymbols(c)
 	undeclaredInMemory(c)
 	gateStream(c)
+	liveLoadPairs(c)
 	for i := 0; i < n; i++ {
 		g := newScenGen(r, r.Intn(3))
 		a := baseCase(g, r.Intn(3))
@@ -343,6 +344,78 @@ func configLoaded(a AuthCase) AuthCase {
 	b := a
 	b.Ops = append([]AuthOp{{K: "load", Sub: append([]AuthOp{}, a.Ops[:k]...)}}, a.Ops[k:]...)
 	return b
+}
+
+// liveLoadPairs: the configuration reaches the authorizer through LoadPolicies AFTER a first
+// Authorize on the same authorizer (no Reset), then Authorize again — for T and for T+B.
+// What a load into a used authorizer means is not modelled (the library re-bases its symbol
+// table there), so this is witness search only: whatever it means, by the property's letter
+// the final answer for T+B may be an acceptance only if it is one for T.
+func liveLoadPairs(c *Ctx) {
+	r := NewRng(c.Seed ^ 0x11fe)
+	n := 250
+	if c.Thorough {
+		n = 4000
+	}
+	for i := 0; i < n; i++ {
+		g := newScenGen(r, r.Intn(3))
+		a := baseCase(g, r.Intn(2))
+		content := append([]AuthOp{}, a.Ops...)
+		b := g.adversarialBlock(withOps(a, AuthOp{K: "authorize"}))
+		// B brings new strings: the first ones it declares take the positions right after T's
+		for k, m := 0, 1+r.Intn(3); k < m; k++ {
+			b.Facts = append(b.Facts, Pred{Name: Pick(r, []string{"note", "owner", "resource"}), Terms: []Term{S(Pick(r, []string{"file1", "file9", "read", "ali", "alice", "x"}))}})
+		}
+		b.Facts = dedupFacts(b.Facts)
+		if r.Chance(1, 2) {
+			// directed: the token asks for a resource whose name starts with "file"; the stored
+			// configuration supplies resource("other") after a few other strings; B's only
+			// contribution is a new string "file9" — which must stay B's own business. The
+			// number of strings before "other" varies around the number of strings T interns.
+			kT := 1 + r.Intn(3)
+			auth := Block{}
+			for k := 0; k < kT; k++ {
+				auth.Facts = append(auth.Facts, Pred{Name: "right", Terms: []Term{S(fmt.Sprintf("t-own-%d", k))}})
+			}
+			auth.Checks = []Check{{Queries: []Rule{{Head: Pred{Name: "query"}, Body: []Pred{{Name: "resource", Terms: []Term{V("r")}}},
+				Exprs: []Expr{{{K: 'v', T: V("r")}, {K: 'v', T: S("file")}, {K: 'b', B: "prefix"}}}}}}}
+			a.Tokens = [][]Block{{auth}}
+			content = nil
+			for k, m := 0, kT-1+r.Intn(4); k < m; k++ {
+				content = append(content, AuthOp{K: "addfact", Fact: Pred{Name: "owner", Terms: []Term{S(fmt.Sprintf("pad-%d", k))}}})
+			}
+			content = append(content, AuthOp{K: "addfact", Fact: Pred{Name: "resource", Terms: []Term{S("other")}}},
+				AuthOp{K: "addpolicy", Policy: Policy{Allow: true, Queries: []Rule{{Head: Pred{Name: "query"}, Exprs: []Expr{{{K: 'v', T: O(true)}}}}}}})
+			b = Block{Facts: []Pred{{Name: "owner", Terms: []Term{S("file9")}}}}
+			if r.Chance(1, 2) {
+				b.Facts = append(b.Facts, Pred{Name: "owner", Terms: []Term{S("file8")}})
+			}
+			c.Count("live-load-pair:directed")
+		}
+		a.InMemory, a.Bulk = r.Chance(1, 2), false
+		a.Ops = []AuthOp{{K: "authorize"}, {K: "load", Sub: content}, {K: "authorize"}}
+		ab := a
+		ab.Tokens = [][]Block{append(append([]Block{}, a.Tokens[0]...), b)}
+		resT, resTB := execCase("AUTHSEQ", a.Sx()), execCase("AUTHSEQ", ab.Sx())
+		c.Eval()
+		c.Eval()
+		last := func(s string) string {
+			f := strings.Fields(s)
+			if len(f) == 0 {
+				return s
+			}
+			return f[len(f)-1]
+		}
+		c.Count("live-load-pair:" + verdictClass(last(resT)) + "->" + verdictClass(last(resTB)))
+		if strings.HasPrefix(resT, "panic") || strings.HasPrefix(resTB, "panic") {
+			c.Violate("C02/panic:live-load", "a load into a used authorizer panicked", map[string]interface{}{"verb": "AUTHSEQ", "case": ab.Sx(), "go": resTB, "parent_case": a.Sx(), "parent_go": resT})
+			continue
+		}
+		if last(resTB) == "ok" && last(resT) != "ok" && !strings.Contains(resT, "environment-timeout") && strings.Count(resT, " ") == 2 && strings.Count(resTB, " ") == 2 {
+			c.Violate("C02/widening:live-load", "with the configuration loaded into an authorizer that had already authorized, appending a block turned a refusal into an acceptance: T -> "+last(resT)+", T+B -> ok",
+				map[string]interface{}{"verb": "AUTHSEQ", "case": ab.Sx(), "go": resTB, "parent_case": a.Sx(), "parent_go": resT})
+		}
+	}
 }
 
 func filterIds(v string, drop func(id string) bool) string {
